@@ -1,17 +1,19 @@
 """U-string-list: basic::StringList (include/llbuild/Basic/StringList.h) -- C15: the list built from one string is that string's bytes followed by its terminator, and the
-encoded size COUNTS the terminator (the same bytes an array-built list of that one string has); encode writes the size and then exactly that many content bytes.  (The decoding
-constructor and the array-built constructor are not under contract.)"""
+encoded size COUNTS the terminator (the same bytes an array-built list of that one string has); encode writes the size and then exactly that many content bytes.  getValues() reads the
+contents as consecutive terminated items that cover the contents exactly (no item and no trailing empty string is dropped).  (The decoding constructor and the array-built
+constructor are not under contract.)"""
 UNIT = {
     'name': 'stringlist',
     'source': 'lib/BuildSystem/BuildKey.cpp',
     'dumps': ['basic::StringList'],
     'types': {'StringRef': 'strref', 'BinaryEncoder': 'struct BinaryEncoder', 'basic::BinaryEncoder': 'struct BinaryEncoder', 'BinaryDecoder': 'struct BinaryDecoder', 'basic::BinaryDecoder': 'struct BinaryDecoder'},
-    'by_value': ['strref'],
-    'predefined_structs': ['BinaryEncoder', 'BinaryDecoder'],
+    'by_value': ['strref', 'struct slvec'],
+    'type_patterns': [(r'(std::)?vector<(llvm::)?StringRef.*>', 'struct slvec')],
+    'predefined_structs': ['BinaryEncoder', 'BinaryDecoder', 'slvec'],
     'need_fields': {'StringList': ['contents', 'size']},
     'no_translate': ['write', 'read', 'writeBytes', 'readBytes', 'memcpy', 'find'],
     'calls': {'m:BinaryEncoder::write': 'sl_write_u64', 'm:BinaryDecoder::read': 'sl_read_u64($o, &$0)', 'm:BinaryEncoder::writeBytes': 'sl_write_bytes', 'm:BinaryDecoder::readBytes': 'sl_read_bytes($o, $0, &$1)',
-              'fn:memcpy': 'sl_memcpy', 'new[]:@char': 'sl_new_chars', 'c:StringRef(const char *, size_t)': 'strref_make', 'm:@strref::data': '($o->ptr)', 'm:@strref::size': '($o->len)', 'm:StringRef::size': '($o->len)', 'm:StringRef::data': '($o->ptr)'},
+              'fn:memcpy': 'sl_memcpy', 'c:StringRef(const char *)': 'sl_item_at', 'm:@struct slvec::push_back': 'sl_push', 'new[]:@char': 'sl_new_chars', 'c:StringRef(const char *, size_t)': 'strref_make', 'm:@strref::data': '($o->ptr)', 'm:@strref::size': '($o->len)', 'm:StringRef::size': '($o->len)', 'm:StringRef::data': '($o->ptr)'},
     'call_patterns': [(r'c:StringRef/0', 'strref_none'), (r'c:StringRef\(\)', 'strref_none')],
     'prelude': ('#include "models/base.h"\n#include <stdlib.h>\n'
                 'struct BinaryEncoder { char _e; }; struct BinaryDecoder { char _e; };\n'
@@ -24,6 +26,13 @@ UNIT = {
                 'static inline void sl_read_u64(struct BinaryDecoder *c, uint64_t *v) { g_r_items++; *v = g_r_size; }\n'
                 'static inline void sl_read_bytes(struct BinaryDecoder *c, size_t n, strref *out) { g_r_items++; g_r_len = n; out->ptr = &g_r_bytes; out->len = n; }\n'
                 'static inline void *sl_memcpy(void *d, const void *s, size_t n) { g_copies++; g_cpy_dst = d; g_cpy_src = s; g_cpy_n = n; return d; }\n'
+                '/* getValues: StringRef(const char *) reads one terminated item; the ghost cursor g_next is where the next item must start */\n'
+                'struct slvec { unsigned n; }; const char *g_contents; uint64_t g_size, g_next; unsigned g_items, g_pushed; size_t nondet_size(void);\n'
+                'static inline strref sl_item_at(const char *p) { strref r; size_t n = nondet_size();\n'
+                '  __CPROVER_assert(p == g_contents + g_next, "[P:C15] each item is read where the previous one (and its terminator) ended");\n'
+                '  __CPROVER_assume(n < g_size - g_next); /* StringList invariant: the contents end with a terminator, so an item started inside them ends inside them */\n'
+                '  g_items++; g_next += n + 1; r.ptr = p; r.len = n; return r; }\n'
+                'static inline void sl_push(struct slvec *v, strref x) { __CPROVER_assert(g_pushed + 1 == g_items, "[P:C15] every item read is listed once, in order"); g_pushed++; v->n++; }\n'
                 'static inline char *sl_new_chars(size_t n) { g_alloc_n = n; g_alloc_ptr = malloc(n); __CPROVER_assume(g_alloc_ptr != 0); return g_alloc_ptr; }\n'),
     'functions': {
         'StringList::StringList': {
@@ -33,6 +42,13 @@ UNIT = {
             'ensures': [('P:C15', 'self->size == value.len + 1 && g_alloc_n == self->size && self->contents == g_alloc_ptr'),
                         ('P:C15', 'g_copies == 1 && g_cpy_dst == (void *)self->contents && g_cpy_src == (const void *)value.ptr && g_cpy_n == value.len'),
                         ('P:C15', 'self->contents[value.len] == 0')]},
+        'StringList::getValues': {
+            'requires': ['__CPROVER_is_fresh(self, sizeof(*self))', 'self->size <= 4096', '__CPROVER_is_fresh(self->contents, 4097)',
+                         'g_contents == self->contents && g_size == self->size && g_next == 0 && g_items == 0 && g_pushed == 0'],
+            'assigns': ['g_next', 'g_items', 'g_pushed'],
+            # the items read cover the contents exactly: nothing is left unread (a trailing empty string included), nothing is read twice
+            'ensures': [('P:C15', 'g_next == self->size && g_pushed == g_items')],
+            'loops': {0: {'assigns': ['i', 'g_next', 'g_items', 'g_pushed', 'result.n'], 'invariant': ['i == g_next && i <= self->size && g_pushed == g_items'], 'decreases': 'self->size - i'}}},
         'StringList::encode': {
             'requires': ['__CPROVER_is_fresh(self, sizeof(*self))', '__CPROVER_is_fresh(coder, 1)', 'g_w_items == 0'],
             'assigns': ['g_w_items', 'g_w_size', 'g_w_ptr', 'g_w_len'],
